@@ -811,10 +811,17 @@ impl StrideRounding for Bitvector {
             return Some(self);
         }
         let diff = interval.start.try_to_i128().unwrap() - self.try_to_i128().unwrap();
-        let diff = diff % interval.stride as i128;
-        let diff = (diff + interval.stride as i128) % interval.stride as i128;
-        let diff = Bitvector::from_u64(diff as u64).into_resize_unsigned(interval.bytesize());
-        self.signed_add_overflow_checked(&diff)
+        let diff = diff.rem_euclid(interval.stride as i128);
+        // `diff` may exceed the signed maximum of the bytesize, so do not convert it to a bitvector.
+        let rounded = self.try_to_i128().unwrap() + diff;
+        let max = Bitvector::signed_max_value(self.width())
+            .try_to_i128()
+            .unwrap();
+        if rounded > max {
+            None
+        } else {
+            Some(Bitvector::from_i64(rounded as i64).into_resize_signed(interval.bytesize()))
+        }
     }
 
     /// Round `self` down to the nearest value that adheres to the stride of `interval`.
@@ -824,10 +831,17 @@ impl StrideRounding for Bitvector {
             return Some(self);
         }
         let diff = self.try_to_i128().unwrap() - interval.end.try_to_i128().unwrap();
-        let diff = diff % interval.stride as i128;
-        let diff = (diff + interval.stride as i128) % interval.stride as i128;
-        let diff = Bitvector::from_u64(diff as u64).into_resize_unsigned(interval.bytesize());
-        self.signed_sub_overflow_checked(&diff)
+        let diff = diff.rem_euclid(interval.stride as i128);
+        // `diff` may exceed the signed maximum of the bytesize, so do not convert it to a bitvector.
+        let rounded = self.try_to_i128().unwrap() - diff;
+        let min = Bitvector::signed_min_value(self.width())
+            .try_to_i128()
+            .unwrap();
+        if rounded < min {
+            None
+        } else {
+            Some(Bitvector::from_i64(rounded as i64).into_resize_signed(interval.bytesize()))
+        }
     }
 }
 
